@@ -66,10 +66,14 @@ class Sys:
         ins(r'^<EnvironmentConfig as Default>::default$', lambda e, st, fr, t, a: VAgg(name='EnvironmentConfig', fields={('f', 0): NONE, ('f', 1): VScalar(False)}, extra={'fieldnames': ('timeout', 'fail_on_timeout')}))
         ins(r'^futures::stream::poll_fn::<', lambda e, st, fr, t, a: VAgg(name='PollFn', fields={('f', 0): a[0]}))
         ins(r'^<futures::stream::PollFn<.*> as StreamExt>::next$', lambda e, st, fr, t, a: VAgg(name='StreamNext', fields={('f', 0): a[0]}))
+        ins(r'^<(futures::stream::)?Fuse<.*> as (futures::)?StreamExt>::next$', lambda e, st, fr, t, a: VAgg(name='StreamNext', fields={('f', 0): a[0]}))
+        ins(r'^<&mut (futures::stream::)?PollFn<.*> as (futures::)?StreamExt>::fuse$|^<(futures::stream::)?PollFn<.*> as (futures::)?StreamExt>::fuse$',
+            lambda e, st, fr, t, a: VAgg(name='StreamFuse', fields={('f', 0): a[0]}, extra={'done': False}))
         ins(r'^<Next<.*> as (futures::)?Future>::poll$', self.m_next_poll)
         ins(r'^<ActorError as From<.*>>::from$', lambda e, st, fr, t, a: VAgg(name='ActorError', fields={('f', 0): a[0]}, extra={'from': _describe(a[0])}))
         ins(r'^<ActorError as Into<.*>>::into$', lambda e, st, fr, t, a: VAgg(name='BoxError', fields={('f', 0): a[0]}))
-        ins(r'^futures_timer::Delay::new$', lambda e, st, fr, t, a: VAgg(name='leaf', extra={'kind': 'delay', 'n': 0}))
+        ins(r'^futures_timer::Delay::new$', self.m_delay_new)
+        ins(r'^futures_timer::Delay::reset$', self.m_delay_reset)
         ins(r'^std::rt::begin_panic::<|^core::panicking::panic|^std::rt::panic_fmt$|^std::panic::resume_unwind$', self.m_panic)
         # runtime: the spawner type parameter is resolved to hannibal's TokioSpawner, tokio itself is modelled
         ins(r'^<[SP] as (spawner::)?Spawner<(Self|A)>>::(spawn_future|sleep|spawn_actor)', self.m_spawner_dispatch)
@@ -86,6 +90,7 @@ class Sys:
         ins(r'^HashMap::<.*>::values$', self.m_map_values)
         ins(r'^<std::iter::FilterMap<.*> as Iterator>::collect::<Vec<', self.m_collect_vec)
         ins(r'^<&Vec<.*> as IntoIterator>::into_iter$', self.m_slice_iter)
+        ins(r'^<&\[.*\] as IntoIterator>::into_iter$', self.m_slice_iter)
         ins(r'^<std::slice::Iter<.*> as Iterator>::next$', S.m_veciter_next)
         ins(r'^Vec::<.*>::len$', lambda e, st, fr, t, a: VScalar(len(deref_arg(e, st, a[0]).extra['items'])))
         ins(r'^HashMap::<.*>::retain::<', self.m_map_retain)
@@ -386,6 +391,30 @@ class Sys:
         st.event('sleep_start', n, now, now + ticks)
         return VAgg(name='leaf', extra={'kind': 'sleep', 'n': n, 'deadline': now + ticks})
 
+    def m_delay_new(self, e, st, fr, t, args):
+        """futures_timer::Delay::new(d): ready once the virtual clock reached now + d (durations are scripted tick counts)"""
+        d = args[0]
+        ticks = (d.extra or {}).get('ticks') if isinstance(d, VAgg) else None
+        if ticks is None:
+            return VAgg(name='leaf', extra={'kind': 'delay', 'n': 0})
+        leaf = self.m_tokio_sleep(e, st, fr, t, args)
+        st.event('delay_new', leaf.extra['n'], mget(st, self.clock(st))['now'], leaf.extra['deadline'])
+        return leaf
+
+    def m_delay_reset(self, e, st, fr, t, args):
+        ref = S.peel(e, st, args[0])
+        cur = _load(e, st, ref)
+        d = args[1]
+        ticks = (d.extra or {}).get('ticks') if isinstance(d, VAgg) else None
+        if not (isinstance(cur, VAgg) and cur.name == 'leaf' and cur.extra.get('kind') == 'sleep') or ticks is None:
+            return NotImplemented
+        now = mget(st, self.clock(st))['now']
+        ex = dict(cur.extra)
+        ex['deadline'] = now + ticks
+        _store(e, st, ref, VAgg(name='leaf', fields=cur.fields, extra=ex))
+        st.event('delay_reset', cur.extra['n'], now, now + ticks)
+        return UNIT
+
     def clock(self, st):
         c = st.meta.get('clock')
         if c is None:
@@ -399,16 +428,7 @@ class Sys:
         nx = _load(e, st, ref)
         if not (isinstance(nx, VAgg) and nx.name == 'StreamNext'):
             return NotImplemented
-        sref = peel(e, st, nx.fields[('f', 0)])
-        pf = _load(e, st, sref)
-        if not (isinstance(pf, VAgg) and pf.name == 'PollFn'):
-            raise Unsupported(f"StreamNext over {pf!r}")
-        box = pf.fields[('f', 0)]
-        cref = peel(e, st, box)
-        clo = _load(e, st, cref)
-        body = e.resolve_closure(st, clo)
-        e.push_call(st, body, [VRef(cref.root, cref.path, True), args[1]], ret_dest=t.dest, ret_bb=t.target, unwind_bb=t.unwind)
-        return None
+        return models.poll_into(e, st, ref, args[1], t)
 
     def m_panic(self, e, st, fr, t, args):
         msg = next((a.text for a in args if isinstance(a, VConst)), '')
@@ -732,6 +752,9 @@ class Sys:
             self.run_handler_script(st, fut)
             res = self.handler_result(st, fut)
             st.event('user_done', kind, n, fut.extra.get('actor'), _describe(msg))
+            exd = dict(fut.extra)
+            exd['done'] = True
+            _store(e, st, ref, VAgg(name='leaf', fields=fut.fields, extra=exd))
             outs.append((st, ready(res)))
             return outs
         if kind == 'started':
@@ -743,7 +766,18 @@ class Sys:
             st.event('userfut_run', n, mget(st, self.clock(st))['now'])
             return [(st, ready(UNIT))]
         if kind in ('stopped', 'stream', 'finished'):
+            pend = fut.extra.get('pend', 0)
+            if pend < self.user_script.get(('pending', kind), 0):
+                # the callback suspends once (e.g. a stopped() hook that awaits something): other tasks run meanwhile
+                ex = dict(fut.extra)
+                ex['pend'] = pend + 1
+                _store(e, st, ref, VAgg(name='leaf', fields=fut.fields, extra=ex))
+                st.event('user_pending', kind, n, fut.extra.get('actor'), '')
+                return [(st, PENDING)]
             st.event('user_done', kind, n, fut.extra.get('actor'), _describe(fut.fields.get(('f', 0))) if kind == 'stream' else '')
+            exd = dict(fut.extra)
+            exd['done'] = True
+            _store(e, st, ref, VAgg(name='leaf', fields=fut.fields, extra=exd))
             return [(st, ready(UNIT))]
         raise Unsupported(f"leaf {kind}")
 
@@ -792,6 +826,8 @@ class Sys:
             if act[0] in ('add_child', 'register_child'):
                 prog = self.program
                 h = act[1]
+                if st.meta.get(('h', '_reg_' + h)) is None:
+                    continue        # a later incarnation: the children were registered by the first one
                 child = prog.take(st, '_reg_' + h)
                 fn = 'context::Context::<A>::add_child' if act[0] == 'add_child' else 'context::Context::<A>::register_child::<M>'
                 self.sync_call(st, fn, [VRef(ctx.root, ctx.path, True), child])
